@@ -268,6 +268,7 @@ def run(ctx, rep):
     from props import C15 as _c15
     _c15.statements_emit_their_expression(F, rep, "C12.get", only=("Value",))
     rep.floor("C12.handler evaluations", T.evals, 25)
+    or_never_elided(F, rep)
 
 
 def seqgen_show(seq):
@@ -282,3 +283,157 @@ def _compile_any(it, p, fid, fn, t, args):
     if isinstance(recv, Variant) and len(p.stack) > 1:
         return absint.ok(seqgen.Seq([("code", "lhs")]))
     return NotImplemented
+
+
+def or_never_elided(F, rep):
+    """`(x) or y` is not compiled away for any x that can be nil.  The builder of the `or` form (the function that constructs Expr::NilEval) may
+    return the primary alone only on paths where the type of x has been tested not to be -- or wrap -- an optional: for each TypeLayout variant the
+    paths consistent with `type of x is that variant` are followed (edge removal on the tests of its discriminant); the bare primary must not be
+    returned for Optional, nor for the wrappers that can hold one (CallbackVariable: a captured variable; Alias)."""
+    EXPRA = "compiler::ast::math_expr::Expr"
+    TLA = "compiler::ast::r#type::TypeLayout"
+    tl = F.adt(TLA)
+    if tl is None:
+        raise AnchorMissing(TLA)
+    tln = [v["name"] for v in tl["variants"]]
+    sites = []
+    for f in F.crates["compiler"].fns:
+        for bi, si, d, rv, s_ in f.assigns():
+            if "agg" in rv and rv["agg"].get("adt") == EXPRA and rv["agg"].get("v") == "NilEval":
+                sites.append((f, bi, rv))
+    rep.floor("C12.or builders of the `or` form", len(sites), 1)
+    for f, nb, rv in sites:
+        prim = op_local(rv["ops"][0])
+        # the primary expression: follow the Box::new / moves back to the local holding the parsed primary
+        def back(start):
+            chain = set()
+            work = [start]
+            while work:
+                l = work.pop()
+                if l is None or l in chain:
+                    continue
+                chain.add(l)
+                for bb_, si, d, r2, _s in f.assigns():
+                    if d.get("l") == l and not d.get("p") and "use" in r2 and op_local(r2["use"]) is not None:
+                        work.append(op_local(r2["use"]))
+                for c in f.calls():
+                    if c.dst and c.dst.get("l") == l and c.matches("alloc::boxed::Box::new"):
+                        work.append(op_local(c.args[0]))
+            return chain
+        chain = back(prim)
+        # returns of a tuple whose first component is the bare primary
+        bare = []
+        for bi, si, d, r2, s_ in f.assigns():
+            if "agg" in r2 and r2["agg"].get("k") == "tuple" and r2["ops"] and op_local(r2["ops"][0]) is not None and bi != nb and (
+                    back(op_local(r2["ops"][0])) & chain) and f.locals[op_local(r2["ops"][0])].strip() == EXPRA:
+                bare.append((bi, s_.get("sp")))
+        if not bare:
+            rep.ob("C12.or", "the builder of `(x) or y` always builds the `or` form (x is never returned alone)", "ok", "", f.span, fn=f.path, key="C12.or|builder|never-elided")
+            continue
+        # the type of the primary: result of the for_type call on it (through `?`)
+        ty_locals = [l for l, ty in enumerate(f.locals) if ty.strip() == TLA]
+        doms = f.dominators()
+        cand = [l for l in ty_locals if any(bb_ in doms.get(nb, ()) for bb_, si, d, r2, _s in f.assigns() if d.get("l") == l)]
+        bad, undec = [], []
+        for bi, sp in bare:
+            reached_for = []
+            decided = False
+            for vi, vn in enumerate(tln):
+                removed = set()
+                for b2, blk in enumerate(f.blocks):
+                    t = blk["t"]
+                    if t["k"] != "switch" or t.get("dty") != "isize":
+                        continue
+                    dl = op_local(t["discr"])
+                    src = None
+                    for s2 in blk["s"]:
+                        if "d" in s2 and s2["d"].get("l") == dl and "discr" in s2["rv"]:
+                            src = s2["rv"]["discr"]
+                    if src is None:
+                        continue
+                    base = src["l"]
+                    # a discriminant of the type local itself or of a reference to it
+                    is_ty = base in cand and not [e for e in src.get("p", []) if e[0] != "deref"]
+                    if not is_ty:
+                        for bb_, si, d, r2, _s in f.assigns():
+                            if d.get("l") == base and "ref" in r2 and r2["ref"].get("l") in cand and not r2["ref"].get("p"):
+                                is_ty = True
+                    if not is_ty:
+                        continue
+                    decided = True
+                    taken = t["otherwise"]
+                    for v, tg in t["targets"]:
+                        if int(v) == vi:
+                            taken = tg
+                    for v, tg in t["targets"]:
+                        if tg != taken:
+                            removed.add((b2, tg))
+                    if t["otherwise"] != taken:
+                        removed.add((b2, t["otherwise"]))
+                if bi in _reach_with_bools(f, removed):
+                    reached_for.append(vn)
+            if not decided:
+                undec.append("the bare primary is returned at %s under a test that is not a match on its type" % sp)
+            else:
+                risky = [v for v in reached_for if v in ("Optional", "CallbackVariable", "Alias")]
+                if risky:
+                    bad.append("x is returned alone at %s when its type is %s (a captured or aliased optional can be nil: y is never evaluated)" % (sp, " / ".join(risky)))
+        rep.ob("C12.or", "the builder of `(x) or y` returns x alone only when its type cannot hold nil", "violated" if bad else ("undecided" if undec else "ok"),
+               "; ".join(bad or undec), f.span, fn=f.path, key="C12.or|builder|never-elided")
+
+
+def _reach_with_bools(f, removed):
+    """blocks reachable from the entry without the removed edges, also pruning the edges of bool tests whose operand can only have one value on
+    the remaining paths (constants assigned in reachable blocks, copies, negations): keeps `a || b` / `if !flag` correlated with the match
+    that computed them"""
+    removed = set(removed)
+    for _ in range(8):
+        reach = f.reachable(0, removed_edges=removed)
+        vals = {}
+
+        def get(l):
+            return vals.get(l, None)
+        changed = True
+        rounds = 0
+        while changed and rounds < 10:
+            changed = False
+            rounds += 1
+            new = {}
+            for bi_, si, d, rv, s_ in f.assigns():
+                if bi_ not in reach or d.get("p") or f.locals[d["l"]].strip() != "bool":
+                    continue
+                v = None
+                if "use" in rv:
+                    k = op_const(rv["use"])
+                    if k is not None and k.get("ty") == "bool":
+                        v = {k.get("int") == "1"}
+                    elif op_local(rv["use"]) is not None:
+                        v = set(vals.get(op_local(rv["use"]), {True, False}))
+                elif rv.get("un") == "Not" and op_local(rv["op"]) is not None:
+                    v = {not x for x in vals.get(op_local(rv["op"]), {True, False})}
+                if v is None:
+                    v = {True, False}
+                new.setdefault(d["l"], set()).update(v)
+            for c in f.calls():
+                if c.bb in reach and c.dst and not c.dst.get("p") and f.locals[c.dst["l"]].strip() == "bool":
+                    new.setdefault(c.dst["l"], set()).update({True, False})
+            if new != vals:
+                vals = new
+                changed = True
+        more = set()
+        for b2 in reach:
+            t = f.blocks[b2]["t"]
+            if t["k"] == "switch" and t.get("dty") == "bool":
+                dl = op_local(t["discr"])
+                vs = vals.get(dl)
+                if vs is not None and len(vs) == 1:
+                    val = next(iter(vs))
+                    f_t = next((tg for v, tg in t["targets"] if v == "0"), None)
+                    t_t = t["otherwise"]
+                    dead = f_t if val else t_t
+                    if dead is not None and (b2, dead) not in removed:
+                        more.add((b2, dead))
+        if not more:
+            return reach
+        removed |= more
+    return f.reachable(0, removed_edges=removed)
